@@ -79,5 +79,32 @@ struct vecx : ind::rebind<vecx>::remove<indirect_vptr>::remove<type_hash> {};
 struct sdbg : debug::rebind<sdbg> {};
 struct srel : release::rebind<srel> {};
 
+// the same two, with static_offsets<> specialised for every pooled method
+// (C12): the call path reads slots and strides from what the generator wrote
+struct sofd : debug::rebind<sofd> {};
+struct sofr : release::rebind<sofr> {};
+
 } // namespace pol
 } // namespace ys
+
+// What a program compiled with the generator's output contains: one
+// specialisation per method. The generated ones are constexpr arrays; these
+// are filled at run time by the harness from the generated text (the C++
+// compiler is the stubbed component), which the library's code cannot tell
+// apart: it only reads static_offsets<method>::slots[i] / strides[i].
+namespace yorel {
+namespace yomm2 {
+namespace detail {
+template<int N, typename Sig>
+struct static_offsets<method<ys::key<N>, Sig, ys::pol::sofd>> {
+    static inline std::size_t slots[8] = {};
+    static inline std::size_t strides[8] = {};
+};
+template<int N, typename Sig>
+struct static_offsets<method<ys::key<N>, Sig, ys::pol::sofr>> {
+    static inline std::size_t slots[8] = {};
+    static inline std::size_t strides[8] = {};
+};
+} // namespace detail
+} // namespace yomm2
+} // namespace yorel
